@@ -82,6 +82,35 @@ theorem c13_query_iter (q : Bytes) :
     (∀ prev, nextParam none prev = none) :=
   ⟨queryParams_pairs q, queryParams_inside q, fun extra => iterate_stable q extra, nextParam_null⟩
 
+/-- The list form on an output list that already holds entries (a second call, a pre-seeded list): a dynamic
+list ends as the previous contents followed by all pairs; a static list of `c` slots as the previous contents
+followed by the pairs that still fit, and the call succeeds exactly when all fitted. -/
+theorem c13_query_list_appends {α : Type} (out ps : List α) :
+    pushParams none out ps = (out ++ ps, true) ∧
+    ∀ c, out.length ≤ c →
+      pushParams (some c) out ps = (out ++ ps.take (c - out.length), decide (out.length + ps.length ≤ c)) := by
+  constructor
+  · induction ps generalizing out with
+    | nil => simp [pushParams]
+    | cons p rest ih => simp [pushParams, ih]
+  · intro c
+    induction ps generalizing out with
+    | nil => intro h; simp [pushParams, h]
+    | cons p rest ih =>
+      intro h
+      by_cases hlt : out.length < c
+      · have := ih (out ++ [p]) (by simp; omega)
+        simp only [pushParams, hlt, if_true, this]
+        have e : c - out.length = (c - (out ++ [p]).length) + 1 := by simp; omega
+        rw [e, List.take_succ_cons]
+        simp only [List.length_append, List.length_cons, List.length_nil, List.append_assoc, List.singleton_append]
+        congr 1
+        simp only [decide_eq_decide]
+        omega
+      · have e : c - out.length = 0 := by omega
+        simp [pushParams, hlt, e]
+        omega
+
 /-! ## parse ∘ assemble -/
 
 /-- For every component tuple satisfying the explicit predicate `Comp.ok`, parsing the assembled text
